@@ -250,4 +250,47 @@ def inherited (lk : Lookup) (name : Name) : Except Err (List Entry) :=
   | none => .error (.noSection name)
   | some (c, r) => loop lk [⟨name, c, r⟩] [name] []
 
+/-! ## the manager over time: `rendered_sections`, `add_config_source`, `reload`
+
+`collapse_named_section` answers from `rendered_sections` when the name was collapsed before; `reload()` rebuilds
+`sections_lookup` from `original_config_sources` and throws the rendered sections away; `add_config_source` appends to
+`original_config_sources` and reloads. -/
+
+abbrev Cfg := List (String × String)
+
+structure Mgr where
+  sources : List Source            -- `original_config_sources`
+  lookup : Lookup                  -- `sections_lookup`
+  cache : List (Name × Cfg)        -- `rendered_sections` (successful collapses only)
+
+/-- `reload()` -/
+def Mgr.reload (m : Mgr) : Mgr := { m with lookup := buildLookup m.sources, cache := [] }
+
+/-- `ConfigManager(sources)` -/
+def Mgr.init (sources : List Source) : Mgr := Mgr.reload ⟨sources, [], []⟩
+
+inductive MOp
+  | collapse (name : Name)         -- `collapse_named_section(name)`
+  | addSource (src : Source)       -- `add_config_source(src)`
+  | reload                         -- `reload()`
+
+/-- one call; `some r` = what a collapse returned -/
+def Mgr.step (m : Mgr) : MOp → Mgr × Option (Except Err Cfg)
+  | .collapse n =>
+    match m.cache.lookup n with
+    | some c => (m, some (.ok c))
+    | none =>
+      match collapse m.lookup n with
+      | .ok c => ({ m with cache := (n, c) :: m.cache }, some (.ok c))
+      | .error e => (m, some (.error e))
+  | .addSource src => (Mgr.reload { m with sources := m.sources ++ [src] }, none)
+  | .reload => (m.reload, none)
+
+def Mgr.run : Mgr → List MOp → Mgr × List (Option (Except Err Cfg))
+  | m, [] => (m, [])
+  | m, op :: ops =>
+    let r := m.step op
+    let rest := Mgr.run r.1 ops
+    (rest.1, r.2 :: rest.2)
+
 end Pkgcore.C43
